@@ -32,6 +32,9 @@ type Engine struct {
 	repoDir string
 	contractFiles []string
 	effFree map[*ssa.Function]bool
+	usable  map[*FuncContract]string // "" = usable, otherwise the reason the contract no longer fits the function
+	driftMu sync.Mutex
+	drift   map[string]string
 }
 
 func LoadEngine(repoDir string) (*Engine, error) {
@@ -53,7 +56,7 @@ func LoadEngine(repoDir string) (*Engine, error) {
 	}
 	prog, _ := ssautil.AllPackages(pkgs, ssa.NaiveForm|ssa.GlobalDebug|ssa.InstantiateGenerics)
 	prog.Build()
-	e := &Engine{fset: prog.Fset, prog: prog, pkgs: pkgs, cs: NewContractSet(), fnIndex: map[string]*ssa.Function{}, repoDir: repoDir, allPkgs: map[string]*packages.Package{}, effFree: map[*ssa.Function]bool{}}
+	e := &Engine{fset: prog.Fset, prog: prog, pkgs: pkgs, cs: NewContractSet(), fnIndex: map[string]*ssa.Function{}, repoDir: repoDir, allPkgs: map[string]*packages.Package{}, effFree: map[*ssa.Function]bool{}, usable: map[*FuncContract]string{}, drift: map[string]string{}}
 	packages.Visit(pkgs, nil, func(p *packages.Package) { e.allPkgs[p.PkgPath] = p })
 	// function index
 	for fn := range ssautil.AllFunctions(prog) {
@@ -113,6 +116,9 @@ func (e *Engine) inRepo(fn *ssa.Function) bool {
 func (e *Engine) contractFor(fn *ssa.Function) *FuncContract {
 	pk, key := fnKey(fn)
 	if fc, ok := e.cs.Funcs[pk+"::"+key]; ok {
+		if !fc.Assumed && fn.Blocks != nil && !e.contractUsable(fc, fn) {
+			return degradedContract(fc)
+		}
 		return fc
 	}
 	return nil
@@ -515,4 +521,81 @@ func solveSplit(o *Obligation, dir, name, q string, timeout int, all bool) Solve
 		}
 	}
 	return res
+}
+
+// contractUsable: do the clauses of fc still make sense for fn (every identifier resolves)? A
+// contract that names a parameter, result or field that no longer exists is reported as drift and
+// ignored: the function is then inlined at its call sites and verified without its contract.
+func (e *Engine) contractUsable(fc *FuncContract, fn *ssa.Function) (ok bool) {
+	if fc == nil {
+		return true
+	}
+	if r, done := e.usable[fc]; done {
+		return r == ""
+	}
+	reason := ""
+	func() {
+		u := &Unit{Name: "dry-run", W: NewWorld(), eng: e, nameCnt: map[string]int{}, usedAssumed: map[string]bool{}, usedPureUF: map[string]bool{},
+			havocCalls: map[string]bool{}, inlined: map[string]bool{}, lockKeys: map[string]bool{}, boxed: map[string]boxedVal{}}
+		st := &State{cells: map[interface{}]Value{}, heaps: map[string]Term{}, gen: &Gen{kind: "init"}, u: u}
+		st.alloc = u.W.Const("alloc@0", SInt)
+		x := &Exec{u: u, fn: fn, regs: map[ssa.Value]Value{}, fc: fc, cellable: map[*ssa.Alloc]bool{}, freshBases: map[string]bool{}, prefix: "dry-run", entry: st, alloc0: st.alloc}
+		x.curBlockReach = TTrue
+		vars := map[string]SVal{}
+		for _, p := range fn.Params {
+			t := u.W.Const("arg."+p.Name(), u.W.SortOf(p.Type()))
+			x.regs[p] = t
+			vars[p.Name()] = SVal{T: t, GT: p.Type()}
+		}
+		x.params = vars
+		post := map[string]SVal{}
+		for k, v := range vars {
+			post[k] = v
+		}
+		names := resultNames(fn.Signature)
+		res := fn.Signature.Results()
+		for i := 0; i < res.Len(); i++ {
+			post[names[i]] = SVal{T: u.W.Const("res."+names[i], u.W.SortOf(res.At(i).Type())), GT: res.At(i).Type()}
+		}
+		pkg := e.typesPkgFor(fc.Pkg)
+		try := func(c *Clause, vs map[string]SVal) {
+			env := &SpecEnv{u: u, x: x, pkg: pkg, vars: vs, bound: map[string]SVal{}, cur: st, old: st, reach: TTrue}
+			if _, err := env.Eval(c.Expr); err != nil && reason == "" {
+				msg := err.Error()
+				if strings.Contains(msg, "unknown identifier") || strings.Contains(msg, "no field") || strings.Contains(msg, "unknown function") || strings.Contains(msg, "no method") {
+					reason = fmt.Sprintf("%s clause %q: %s", c.Kind, trunc(c.Text, 80), msg)
+				}
+			}
+		}
+		for _, c := range fc.Requires {
+			try(c, vars)
+		}
+		for _, c := range fc.Defines {
+			try(c, vars)
+		}
+		for _, c := range fc.Ensures {
+			try(c, post)
+		}
+		for _, item := range fc.Modifies {
+			env := &SpecEnv{u: u, x: x, pkg: pkg, vars: vars, bound: map[string]SVal{}, cur: st, old: st, reach: TTrue}
+			if _, err := env.frameItem(item); err != nil && reason == "" {
+				msg := err.Error()
+				if strings.Contains(msg, "unknown identifier") || strings.Contains(msg, "no field") {
+					reason = fmt.Sprintf("modifies %q: %s", item, msg)
+				}
+			}
+		}
+	}()
+	e.usable[fc] = reason
+	if reason != "" {
+		e.driftMu.Lock()
+		e.drift[fnDisplayName(fn)] = reason
+		e.driftMu.Unlock()
+	}
+	return reason == ""
+}
+
+// degradedContract: what is left of a drifted contract — its loop invariants only.
+func degradedContract(fc *FuncContract) *FuncContract {
+	return &FuncContract{Key: fc.Key, Pkg: fc.Pkg, Loops: fc.Loops, Opts: map[string]string{"inline": "yes"}, File: fc.File, Line: fc.Line}
 }
